@@ -258,7 +258,7 @@ def run(ctx):
             parts = [prop] * n
             glue = [rnd.choice(["and", "or"]) if i else "and" for _ in range(n - 1)]
             where = rnd.randrange(1, n - 1)
-            kind = "good" if i == 0 else rnd.choice(["missing connective", "dangling connective", "good"])
+            kind = ["good", "missing connective", "dangling connective"][i] if i < 3 else rnd.choice(["missing connective", "dangling connective", "good"])
             if kind == "missing connective":
                 glue[where] = ""
             text = " ".join(x for pair in zip(parts, glue + [""]) for x in pair if x)
